@@ -1,4 +1,5 @@
 import Tpp.Driver.Proto
+import Tpp.Model.Strings
 import Tpp.Model.Markup
 import Tpp.Ref.Markup
 /-!
@@ -42,7 +43,7 @@ open Tpp Tpp.Driver
 
 def showString (es : List Element) : String :=
   let parts := toString es.length :: es.map showElement
-  " ; ".intercalate parts ++ " / " ++ hex (Tpp.Markup.toStringBytes es)
+  " ; ".intercalate parts ++ " / " ++ hex (TString.toString es)
 
 /-- model answer for a case line of this slice; `none` when the kind is not ours -/
 def run (kind : Char) (rest : String) : Option String :=
